@@ -907,6 +907,10 @@ namespace awkward {
                              bool mask,
                              bool keepdims) const {
     ContentPtr next = content_;
+    // a reduction reads the data anyway: decide on the array itself, not on a VirtualArray around it
+    while (VirtualArray* raw = dynamic_cast<VirtualArray*>(next.get())) {
+      next = raw->array();
+    }
     if (RegularArray* raw = dynamic_cast<RegularArray*>(next.get())) {
       next = raw->toListOffsetArray64(true);
     }
